@@ -169,7 +169,10 @@ func parsePlain(text string, probe *[]firing) bool {
 // parseWith parses text with the given parser into a new statement; a panic inside a hook is
 // reported as not accepted (panics are the subject of C08).
 func parseWith(p *grammar.Parser, text string) (st *semantic.Statement, ok bool, panicked bool) {
-	st = &semantic.Statement{}
+	st, nextStmt = nextStmt, nil
+	if st == nil {
+		st = &semantic.Statement{}
+	}
 	defer func() {
 		if r := recover(); r != nil {
 			ok, panicked = false, true
@@ -177,6 +180,36 @@ func parseWith(p *grammar.Parser, text string) (st *semantic.Statement, ok bool,
 	}()
 	ok = p.Parse(grammar.NewLLk(text, 1), st) == nil
 	return
+}
+
+// nextStmt, when set, is the Statement value the next parseWith fills (the "collected" histories place it).
+var nextStmt *semantic.Statement
+
+var nCollected = 0
+
+// dropHist parses h on p with a Statement of its own and lets go of it: what it returns does not keep it reachable.
+//
+//go:noinline
+func dropHist(p *grammar.Parser, h string) (uintptr, hstmt) {
+	st := &semantic.Statement{}
+	nextStmt = st
+	hs := histStmt(p, h)
+	return reflect.ValueOf(st).Pointer(), hs
+}
+
+// newStatementAt allocates Statements until one is placed at addr (the allocator is free to hand out the memory
+// of a collected Statement again at any time; here that is only made likely); the others are kept meanwhile.
+func newStatementAt(addr uintptr, candidates int) (*semantic.Statement, bool) {
+	var keep []*semantic.Statement
+	for i := 0; i < candidates; i++ {
+		st := &semantic.Statement{}
+		if reflect.ValueOf(st).Pointer() == addr {
+			return st, true
+		}
+		keep = append(keep, st)
+	}
+	runtime.KeepAlive(keep)
+	return &semantic.Statement{}, false
 }
 
 func newSemParser() (*grammar.Parser, *grammar.Grammar) {
@@ -865,6 +898,31 @@ func historyMode(sents []sentence, nbases, nprobes, nrandom, nlong, longLen, lon
 			}
 		}
 	}
+	// (4) collected statements: a long lived parser whose caller drops every Statement once it has looked at it
+	// (a server loop); between two statements the collector runs and the next Statement is placed, when the
+	// allocator allows it, in the memory of the dropped one. Whatever recognises "the statement I was working on"
+	// by where it is rather than by holding it, shows here.
+	if nCollected > 0 && len(all) > 0 {
+		p, _ := newSemParser()
+		seen := 0
+		for i := 0; i < nCollected; i++ {
+			b := all[rng.Intn(len(all))]
+			h := b.text
+			if rng.Intn(4) != 0 {
+				h = cutText(b, 1+rng.Intn(len(b.toks)), garbage[rng.Intn(len(garbage))])
+			}
+			addr, hs := dropHist(p, h)
+			seen++
+			runtime.GC()
+			st, same := newStatementAt(addr, 20000)
+			if same {
+				stats["a:collected-address-reused"]++
+			}
+			nextStmt = st
+			emitProbe(p, "collected", []hstmt{hs}, seen, []string{h}, probes[rng.Intn(len(probes))].text)
+			seen++
+		}
+	}
 }
 
 // textsMode replays logged cases: {"text": t} -> event P, {"text": t, "w": true} -> event W,
@@ -922,6 +980,7 @@ func main() {
 	nlong := fs.Int("long", 0, "history mode: number of long histories on one parser")
 	longLen := fs.Int("long-len", 12000, "history mode: statements per long history")
 	longEvery := fs.Int("long-every", 400, "history mode: a probe after every this many statements of a long history")
+	fs.IntVar(&nCollected, "collected", 0, "history mode: pairs (statement dropped and collected, probe placed in its memory) on one parser")
 	must(fs.Parse(os.Args[2:]))
 	rng = rand.New(rand.NewSource(*seed))
 	var err error
